@@ -78,14 +78,71 @@ def build_xlate():
         raise Broken("xlate build", tail(out))
 
 
+BASELINE = os.path.join(XLATE, "baseline")          # committed model of the pinned source (one file per Gen module)
+LEAN_MAIN = LEAN
+LEAN_BASE = os.path.join(ROOT, "lean-baseline")     # a second lake workspace whose Gen/ is the committed model
+# which properties' models contain generated parts, per translation group
+GROUP_PROPS = {"syntax": {"C01", "C02", "C03", "C04", "C10", "C20"}, "rename": {"C08"}, "choreo": {"C12", "C16"}}
+
+
+def groups_of(prop):
+    return {g for g, ps in GROUP_PROPS.items() if prop in ps}
+
+
 def run_xlate():
-    """Regenerate lean/Glas/Gen/*.lean from /repo's working tree."""
+    """Regenerate lean/Glas/Gen/*.lean from /repo's working tree.  A group of generated files whose source
+    the translator cannot read (a shape outside its subset) is replaced by the committed model of the pinned
+    source; the groups for which that happened are returned: {group: reason}."""
     if not os.path.exists(XLATE_BIN):
-        return ""
-    rc, out = sh([XLATE_BIN, REPO, os.path.join(LEAN, "Glas", "Gen")], timeout=600)
+        return "", {}
+    rc, out = sh([XLATE_BIN, REPO, os.path.join(LEAN_MAIN, "Glas", "Gen"), BASELINE], timeout=600)
     if rc != 0:
         raise Broken("translation of /repo sources to Lean (xlate)", tail(out))
+    fallbacks = {m.group(1): m.group(2)[:400] for m in re.finditer(r"^FALLBACK (\w+): (.*)$", out, re.M)}
+    return out, fallbacks
+
+
+def gen_differs_from_baseline():
+    """names of the generated files that differ from the committed model"""
+    out = []
+    for f in sorted(os.listdir(BASELINE)):
+        if f.endswith(".lean"):
+            try:
+                if open(os.path.join(BASELINE, f)).read() != open(os.path.join(LEAN_MAIN, "Glas", "Gen", f)).read():
+                    out.append(f)
+            except FileNotFoundError:
+                out.append(f)
     return out
+
+
+def prepare_baseline_lean():
+    """lean-baseline/: the same Lean sources (symlinks) with Gen/ = the committed model; its own .lake"""
+    os.makedirs(os.path.join(LEAN_BASE, "Glas", "Gen"), exist_ok=True)
+    for f in ("lakefile.toml", "lake-manifest.json"):
+        write_if_changed(os.path.join(LEAN_BASE, f), open(os.path.join(LEAN_MAIN, f)).read())
+    def link(rel):
+        dst = os.path.join(LEAN_BASE, rel)
+        src = os.path.join(LEAN_MAIN, rel)
+        if os.path.islink(dst) and os.readlink(dst) == src:
+            return
+        if os.path.lexists(dst):
+            os.remove(dst)
+        os.symlink(src, dst)
+    for f in ("Driver.lean", "Glas.lean"):
+        link(f)
+    for d in os.listdir(os.path.join(LEAN_MAIN, "Glas")):
+        if d != "Gen":
+            link(os.path.join("Glas", d))
+    for f in os.listdir(BASELINE):
+        if f.endswith(".lean"):
+            write_if_changed(os.path.join(LEAN_BASE, "Glas", "Gen", f), open(os.path.join(BASELINE, f)).read())
+
+
+def use_lean(which):
+    """switch the lake workspace (and model driver) every later step uses: 'main' or 'baseline'"""
+    global LEAN, DRIVER_BIN
+    LEAN = LEAN_BASE if which == "baseline" else LEAN_MAIN
+    DRIVER_BIN = os.path.join(LEAN, ".lake", "build", "bin", "driver")
 
 
 def lake_build(targets, timeout=3000):
@@ -131,7 +188,7 @@ FORBIDDEN = re.compile(r"\bsorry\b|\badmit\b|^\s*axiom\s|native_decide|bv_decide
 def scan_forbidden():
     """grep the Lean sources for forbidden constructs outside comments"""
     hits = []
-    for dp, dn, fn in os.walk(os.path.join(LEAN, "Glas")):
+    for dp, dn, fn in os.walk(os.path.join(LEAN, "Glas"), followlinks=True):
         for f in fn:
             if not f.endswith(".lean"):
                 continue
@@ -282,6 +339,11 @@ class Result:
 
     def add_broken(self, what, detail):
         self.broken.append((what, detail))
+
+    def has_new_violation(self):
+        """a concrete failing input that known_findings.json does not list"""
+        known = {f["key"] for f in known_findings().get("findings", []) if f["property"] == self.prop}
+        return any(k not in known for k, _, _ in self.violations)
 
     def finish(self):
         os.makedirs(EVID, exist_ok=True)
